@@ -825,7 +825,11 @@ func (c *ChannelArbitrator) relaunchResolvers(commitSet *CommitSet,
 			},
 		)
 
-		anchorResolver.SupplementState(chanState)
+		// The historical channel state may not be available, see
+		// above.
+		if chanState != nil {
+			anchorResolver.SupplementState(chanState)
+		}
 
 		unresolvedContracts = append(unresolvedContracts, anchorResolver)
 
@@ -2439,7 +2443,9 @@ func (c *ChannelArbitrator) prepContractResolutions(
 			contractResolutions.AnchorResolution.CommitAnchor,
 			height, c.cfg.ChanPoint, resolverCfg,
 		)
-		anchorResolver.SupplementState(chanState)
+		if chanState != nil {
+			anchorResolver.SupplementState(chanState)
+		}
 
 		htlcResolvers = append(htlcResolvers, anchorResolver)
 	}
